@@ -126,6 +126,9 @@ VARIABLES vers,     \* sequence of versions
           hist      \* ghost: the operation history (scenario), hidden by VIEW
 vars == <<vers, hv, ix, issued, truth, serial, lastRes, reused, nops, hist>>
 view == <<vers, hv, ix, issued, truth, serial, lastRes, reused, nops>>
+\* scenario generation keeps the last step apart: operations that fail (conflict) lead to the same state and
+\* would otherwise be represented by a single arbitrary history
+genview == <<vers, hv, ix, issued, truth, serial, lastRes, reused, nops, hist[Len(hist)]>>
 
 Latest == vers[Len(vers)]
 NoIx == [has |-> FALSE, frags |-> {}, snap |-> <<>>]
